@@ -370,6 +370,21 @@ theorem C14_memoless_reader_uses_offset (ns : List Node) (k r : Int) (h : r + k 
   · simp [resolveRefMemo, hf]
   · simp [resolveValT, thr, allOn, hf]
 
+/-- … and the increment a reader works with is the one it was handed: no function of the path assigns its `addFileId` /
+    `idIncr` parameter or takes its address, and the id `ReadEntityRef` looks up is written exactly three times — initialised,
+    read from the stream in this very call, `+= addFileId` (regenerated; the extractor raises on any other shape) -/
+theorem C14_increment_not_reassigned :
+    incrementReassigned = [] ∧ refIdWrites = ["intid=-1;", "in>>id;", "id+=addFileId;"] := by decide
+
+/-- the increment is a function of the file-level offset only: what an appended file becomes depends on the session it is
+    appended to through `maxFileId` alone — two sessions with the same `maxFileId`, whatever they hold and whatever was read
+    into them before, turn the same file into the same instances (ids and every reference at every depth) -/
+theorem C14_increment_function_of_max (s₁ s₂ : Sess) (f : List Inst) (h₁ : Inv s₁) (h₂ : Inv s₂) (hf : Conf f)
+    (h : s₁.maxId = s₂.maxId) :
+    (appendExchange id noSev s₁ f).nodes.drop s₁.nodes.length = (appendExchange id noSev s₂ f).nodes.drop s₂.nodes.length := by
+  rw [(C14_both_present s₁ f h₁ hf).1, (C14_both_present s₂ f h₂ hf).1, h]
+  simp
+
 /-! ### hypotheses are satisfiable; the interesting case (identical ids in both files) is covered -/
 
 def exA : List Inst := [⟨1, [⟨"T0", [.tok "5", .ref 2]⟩], ""⟩, ⟨2, [⟨"T1", [.aggr (.cons (.ref 1) .nil)]⟩], ""⟩]
